@@ -275,6 +275,18 @@ class Translator(object):
         d.list_params = set(st.list_params)
         d.state_vars = list(st.state_vars)
         d.shapes = shapes
+        # what each external routine was called with, as definitions of their own (the routine's contract is stated on them)
+        d.oracle_systems = {}
+        for oname, calls in st.oracle_args.items():
+            for k, cargs in enumerate(calls):
+                items = []
+                for a in cargs:
+                    items += flat(a)
+                sysd = Def('%s_%s_args%s' % (name or qualname.replace('.', '_'), oname.split('.')[-1], '' if k == 0 else str(k)),
+                           list(params), list(st.lets), ('tuple', items), dict(st.stats), h)
+                sysd.list_params, sysd.state_vars = set(), []
+                _prune(sysd)
+                d.oracle_systems.setdefault(oname, []).append(sysd)
         _prune(d)
         for lp in sorted(st.list_params):
             if ir.lifted(d.result, st.list_params) and (lp + '_elt') not in d.params:
@@ -325,6 +337,7 @@ class _State(object):
         self.scalars_are_arrays = False
         self.cont_stack = []
         self.oracle_calls = {}
+        self.oracle_args = {}
         self.consts = consts
         self.env = {}
         self.lets = []
@@ -1520,10 +1533,11 @@ class _State(object):
         if d in self.oracle_calls:
             # an external routine (eigen-solver): its outputs become fresh parameters of the definition; what is
             # assumed about them is a hypothesis of the theorems, and the correspondence run feeds the real outputs
-            for a in args:
-                self.expr(a, env)
+            self.oracle_args.setdefault(d, []).append([self.expr(a, env) for a in args])
             outs = []
-            for oname, shape, ismat in self.oracle_calls[d]:
+            spec = self.oracle_calls[d]
+            single = isinstance(spec, tuple)
+            for oname, shape, ismat in ([spec] if single else spec):
                 data = []
                 def mk(prefix, dims):
                     if not dims:
@@ -1535,7 +1549,7 @@ class _State(object):
                         mk('%s_%d' % (prefix, i), dims[1:])
                 mk(oname, list(shape))
                 outs.append(A(shape, data, ismat))
-            return ('tuple', outs)
+            return outs[0] if single else ('tuple', outs)
         if d in self.callees:
             cname, extras, npos = self.callees[d]
             if len(args) != npos or n.keywords:
